@@ -119,9 +119,9 @@ def run(chk):
 
     # 2. fault enumeration: behaviours printed at every stop -> child processes on the real code
     if thorough:
-        xplans = [(2, 1, 1, 3000), (3, 2, 1, 2500)]
+        xplans = [(2, 1, 1, 1200), (3, 2, 1, 1000)]
     else:
-        xplans = [(2, 2, 1, 420)]
+        xplans = [(2, 2, 1, 160)]
     first = None
     for i, (commits, crashes, closes, limit) in enumerate(xplans):
         r = vf.tlc("Store", "Crash", "x%d.cfg" % i, cfg_text=cfg(commits, crashes, closes, emit=True), workers=1,
@@ -162,7 +162,7 @@ def run(chk):
     chk.selftest("replay: one expected hook event corrupted", any(x.get("kind") in ("violation", "mismatch") for x in recs))
 
     # 3. recorded random scenarios -> trace validation
-    for mf, runs in ((100, 40), (64, 25), (400, 25)) if thorough else ((100, 5),):
+    for mf, runs in ((100, 25), (64, 15), (400, 15)) if thorough else ((100, 5),):
         tr = os.path.join(vf.scratch(), "ctrace-%d.ndjson" % mf)
         recs, _ = vf.run_driver(binary, ["record", str(runs), str(mf), tr], timeout=3000)
         absorb(chk, recs, "record MaxFile=%d" % mf)
@@ -224,7 +224,7 @@ def run(chk):
         "flush-every-commit this is 'the last completed commit or the interrupted one' (checked by StrictWhenFlushing)",
         "bounds: %s commits x <= 2 blocks (4 / 40 bytes, max file 64: roll-over forced) x <= 2 crashes x 1 clean close "
         "exhaustively in TLC; replay: %s; recorded runs: 3-5 lifetimes x <= 3 commits x <= 3 blocks of any size"
-        % ("3" if thorough else "2", "all stops of the 2-commit model + samples of deeper ones" if thorough
+        % ("3" if thorough else "2", "stratified samples (every step name x kind of stop) of the 2-commit/1-crash and 3-commit/2-crash models" if thorough
            else "stratified sample (every step name x kind of stop)"),
         "blocks fit a flat file; disk write errors (the in-process rollback path of writePendingAndCommit) are not injected",
     ]
